@@ -110,7 +110,7 @@ pub fn check_session(
     }
 }
 
-fn case(ctx: &Ctx, bytes: &[u8]) -> Outcome {
+pub fn case(ctx: &Ctx, bytes: &[u8]) -> Outcome {
     let s = gen_session(bytes, &Cfg::default());
     check_forms(ctx, &s.forms, &s.features)
 }
@@ -118,6 +118,9 @@ fn case(ctx: &Ctx, bytes: &[u8]) -> Outcome {
 impl Prop for C01 {
     fn id(&self) -> &'static str {
         "C01"
+    }
+    fn fuzz_stage(&self) -> Option<(&'static str, u64, usize)> {
+        Some(("program", 20_000, 1536))
     }
     fn rule(&self) -> &'static str {
         "sessions of 1-8 top-level forms from the typed program generator (definitions, type-preserving redefinitions, global set!, expressions over all core and derived forms, apply/eval/higher-order use), each run in the reference interpreter and in three VMs (fresh, second fresh, polluted with unrelated definitions). Non-trivial: the reference run calls at least one user-defined procedure and the session uses >= 2 different special/derived forms; distinct by program text."
